@@ -27,8 +27,9 @@ class C13:
 
     def check_matrix(self):
         ctx = self.ctx
-        s = ctx.summ.of_func(OPS, "_compute_similarity_matrix")
-        site = f"{self.file}:{s.node.lineno} _compute_similarity_matrix"
+        from .common import helper_or_caller
+        s, written_out = helper_or_caller(ctx, OPS, "_compute_similarity_matrix")
+        site = f"{self.file}:{s.node.lineno} {'group_sound_events (helper written out)' if written_out else '_compute_similarity_matrix'}"
         ev, fn = ("param", s.params[0]), ("param", s.params[1])
         comb = ("call", ("ext", "itertools.combinations"), (("call", ("builtin", "enumerate"), (ev,), ()), ("const", 2)), ())
         I1, X1, I2, X2 = ("var", "i1"), ("var", "x1"), ("var", "i2"), ("var", "x2")
@@ -158,8 +159,9 @@ class C13:
             vals_ok = lv[2] in (a, b)
         else:
             vals_ok = len(lv) == len(la) and len(set(map(repr, lv))) == 1
-        sym = len(la) == len(lb) and len(la) > 0 and sorted(zip(la, lb), key=repr) == sorted(zip(lb, la), key=repr) \
-            and set(la) == {I1, I2} and vals_ok
+        # the entries recorded for one similar pair are exactly the two off-diagonal cells (i, j) and (j, i)
+        sym = len(la) == len(lb) and len(la) > 0 and set(zip(la, lb)) == {(I1, I2), (I2, I1)} \
+            and sorted(zip(la, lb), key=repr) == sorted(zip(lb, la), key=repr) and vals_ok
         if sym:
             ctx.ok("R13.1", f"{self.file}:{coo[0].lineno} _compute_similarity_matrix", "both (i, j) and (j, i) recorded for every similar pair")
         else:
@@ -180,6 +182,13 @@ class C13:
         site = f"{self.file}:{s.node.lineno} group_sound_events"
         ev, fn = ("param", s.params[0]), ("param", s.params[1])
         mat = ctx.normcalls(("call", ("global", f"{OPS}:_compute_similarity_matrix", "func"), (ev, fn), ()))
+        from .common import helper_or_caller
+        _, written_out = helper_or_caller(ctx, OPS, "_compute_similarity_matrix")
+        if written_out:
+            # the matrix helper is written out here: the matrix is the sparse array built from the pair loop (check_matrix decided it)
+            built = [c.term for c in s.calls if c.term[1][0] == "ext" and c.term[1][1].split(".")[-1] in ("coo_array", "coo_matrix", "csr_array", "csr_matrix")]
+            if len(built) == 1:
+                mat = ctx.normcalls(built[0])
         cc = [c for c in s.calls if c.term[1][0] == "ext" and c.term[1][1].endswith("connected_components")]
         if len(cc) != 1:
             ctx.undec("R13.3", site, "connected_components call not found")
@@ -197,6 +206,8 @@ class C13:
                     "(strong connectivity on a directed reading splits chains)", cc[0].lineno)
         labels = ("sub", t, ("const", 1))
         loops = [l for l in s.loops.values() if l.kind == "for"]
+        if written_out:
+            loops = [l for l in loops if not (l.iter[0] == "call" and l.iter[1] == ("ext", "itertools.combinations"))]
         z = ("call", ("builtin", "zip"), (ev, labels), ())
 
         def unwrap_labels(it):
